@@ -161,7 +161,15 @@ func c08Oracle(c wireCase) ev.Verdict {
 	}
 	if !bytes.Equal(re, ref) {
 		who, at := culprit(sp, ref, re)
-		return fail("reencode:"+c.Msg+"/"+who, "(ii) encode(decode(bytes)) differs from the bytes at offset %d (element %s): in %s… out %s… (lengths %d / %d)",
+		key := "reencode:" + c.Msg + "/" + who
+		// root cause: the first element (wire order) at which decoding or re-encoding a prefix
+		// of the message goes wrong — a layout disagreement, keyed as in C09; the byte offset or
+		// the struct order alone may point at an innocent neighbour
+		if f := attribute(b, v); f != "" {
+			who = f
+			key = "layout:" + c.Msg + "/" + who
+		}
+		return fail(key, "(ii) encode(decode(bytes)) differs from the bytes at offset %d (element %s): in %s… out %s… (lengths %d / %d)",
 			at, who, short(ref[min(at, len(ref)):]), short(re[min(at, len(re)):]), len(ref), len(re))
 	}
 
@@ -177,11 +185,64 @@ func c08Oracle(c wireCase) ev.Verdict {
 			return fail("decode-error:"+c.Msg, "(iii) PlainNasDecode of permuted IEs: %v", err)
 		}
 		if d := diffMsg(dec2, dec3); d != "" {
-			return fail("permute:"+c.Msg+"/"+fieldOfPath(d, c.Msg), "(iii) IE order %v decodes differently from table order at %s", c.Perm, d)
+			key := "permute:" + c.Msg + "/" + fieldOfPath(d, c.Msg)
+			if f := attribute(b, v); f != "" {
+				key = "layout:" + c.Msg + "/" + f
+			}
+			return fail(key, "(iii) IE order %v decodes differently from table order at %s", c.Perm, d)
 		}
 		vd.Classes = append(vd.Classes, "perm:non-identity")
 	}
 	return vd
+}
+
+// attribute finds the root cause of a failure: the message is rebuilt IE by IE in table
+// order; the first prefix that the library does not decode to the expected struct, or does
+// not re-encode to the same bytes, names its last element. "" = every prefix is fine.
+func attribute(b *binding, v *refnas.Value) string {
+	for j := 0; j <= len(v.Opts); j++ {
+		sub := &refnas.Value{Def: v.Def, Mand: v.Mand, Opts: v.Opts[:j]}
+		name := ""
+		if j > 0 {
+			if k := b.optIndexByIEI(v.Opts[j-1].IEI); k >= 0 {
+				name = b.def.Opts[k].Go
+			}
+		}
+		want, err := b.build(sub)
+		if err != nil {
+			return name
+		}
+		_, ref, err := b.spans(sub)
+		if err != nil {
+			return name
+		}
+		bad := func() (bad bool) {
+			defer func() {
+				if recover() != nil {
+					bad = true
+				}
+			}()
+			dec, err := b.decode(ref)
+			if err != nil {
+				return true
+			}
+			if d := diffMsg(want, dec); d != "" {
+				if j == 0 {
+					name = fieldOfPath(d, b.def.Name)
+				}
+				return true
+			}
+			re, err := b.encode(dec)
+			return err != nil || !bytes.Equal(re, ref)
+		}()
+		if bad {
+			if name == "" {
+				name = "mandatory-part"
+			}
+			return name
+		}
+	}
+	return ""
 }
 
 func permBytes(p []int) []byte {
